@@ -38,7 +38,9 @@ var c20Site = markdown.New(fstest.MapFS{
 var c20UseSite bool
 var c20ViaLoad bool
 var c20LoadN int
-var c20FrontMatter = []string{"---\ntitle: T\n---\n", "---\ntitle: T\ntags: [a, b]\nnested:\n  k: v\n---\n\n", "---\ntitle: T\n---\n\n\n"}
+var c20FrontMatter = []string{"---\ntitle: T\n---\n", "---\ntitle: T\ntags: [a, b]\nnested:\n  k: v\n---\n\n", "---\ntitle: T\n---\n\n\n",
+	// three dashes inside a line of the block belong to the YAML
+	"---\ntitle: T\nsub: A --- B\nlast: z\n---\n", "---\ntitle: T\n# --- a comment ---\nlast: z\n---\n\n", "---\nsub: \"---\"\ntitle: T\nlast: z\n---\n"}
 
 func c20Vuego(src string, overrides map[string]string) (out string, err error) {
 	defer func() {
@@ -77,7 +79,7 @@ func c20Vuego(src string, overrides map[string]string) (out string, err error) {
 				done <- err
 				return
 			}
-			if fm != "" && (doc.FrontMatter() == nil || fmt.Sprint(doc.FrontMatter()["title"]) != "T") {
+			if fm != "" && (doc.FrontMatter() == nil || fmt.Sprint(doc.FrontMatter()["title"]) != "T" || (strings.Contains(fm, "last: z") && fmt.Sprint(doc.FrontMatter()["last"]) != "z")) {
 				done <- fmt.Errorf("front matter not parsed: %v", doc.FrontMatter())
 				return
 			}
